@@ -152,6 +152,63 @@ def abstract_match(ca: CodecAnalyser, mt: "Matcher", ra: ClassAnalysis, pa: Clas
     return refusals, n_eval
 
 
+def foreign_match(ca: CodecAnalyser, mt: "Matcher", ra: ClassAnalysis, pa: ClassAnalysis) -> tuple[list[str], int]:
+    """Evaluate matches() abstractly for a parsed response and a request of the right class whose field values are unrelated
+    (opaque).  Every accepting path must have assumed the equality of each echo atom the matcher contains: an accepting path that
+    skipped one (an `or`, an inverted comparison, an early `return True`) accepts stale replies."""
+    from sa.layout import UnknownV
+    mf = mt.funcs[0]
+    required = set()
+    for req_e, self_e, _fn in mt.atoms:
+        root = req_e
+        while isinstance(root, (ast.Subscript,)):
+            root = root.value
+        if isinstance(root, ast.Attribute) and isinstance(root.value, ast.Name) and root.value.id == "request":
+            required.add(root.attr)
+    problems: list[str] = []
+    n_eval = 0
+    stored = set().union(*[set(qp.fields) for qp in ra.accepted]) if ra.accepted else set()
+    required &= stored   # attributes that are class constants / properties are decided by the isinstance test
+    for rp in pa.accepted[:2]:
+        for qp in ra.accepted[:1]:
+            st = rp.state.clone()
+            base_facts = len(st.facts)
+            oid = st.next_id
+            st.next_id += 1
+            fields = {k: UnknownV(f"request.{k}") for k in qp.fields}
+            st.heap[oid] = ObjV(qp.obj_cls, fields, oid)
+            try:
+                outs = ca.interp.call_function(st, mf, [ObjV(qp.obj_cls, {}, oid)], {}, self_val=ObjV(rp.obj_cls, {}, rp.oid))
+            except AnalysisError as e:
+                return [f"matches() uses a construct the interpreter does not model: {e}"], n_eval
+            for st2, v in outs:
+                n_eval += 1
+                if isinstance(v, Raised):
+                    continue
+                new = st2.facts[base_facts:]
+                eq_assumed = set()
+                for f in new:
+                    if f.kind != "opaque":
+                        continue
+                    is_eq = ("==" in f.text and not f.text.startswith("not ")) or ("!=" in f.text and f.text.startswith("not "))
+                    if is_eq:
+                        for name in required:
+                            if f"request.{name}" in f.vtext or f"request.{name}" in f.text:
+                                eq_assumed.add(name)
+                accepts = (isinstance(v, ConstV) and v.value is True)
+                undecided = not isinstance(v, ConstV)
+                if undecided:
+                    # `return a == b`: the final comparison itself is the assumption
+                    txt = getattr(v, "text", "") or ""
+                    for name in required:
+                        if f"request.{name}" in txt and "==" in txt:
+                            eq_assumed.add(name)
+                if (accepts or undecided) and not required <= eq_assumed:
+                    problems.append(f"a path accepts without requiring equality of request.{sorted(required - eq_assumed)} "
+                                    f"(assumed on this path: {[f.text for f in new if f.kind == 'opaque'][:4]})")
+    return problems, n_eval
+
+
 def run(m: Model, r: Report, tier: str) -> None:
     rule_r7(m, r)
     reg = Registry(m)
@@ -167,6 +224,9 @@ def run(m: Model, r: Report, tier: str) -> None:
     r.rule("R9", "a reply of another registered service (or another sub-function of the service) cannot satisfy matches()", floor=35)
     r.rule("R11", "evaluating matches() abstractly on (parsed request, parsed response) with equal echoed bytes never refuses: a refusal "
                   "must depend on a comparison that involves the received bytes", floor=30)
+    r.rule("R12", "evaluating matches() abstractly against a request with unrelated field values: every accepting path has required the "
+                  "equality of each echo atom (no `or`, inverted comparison or early accept)", floor=30)
+    r.rule("R13", "matches() predicates are conjunctions; request/response comparisons are equalities where they accept and inequalities where they refuse", floor=20)
     r.rule("R10", "the response parser admits every ISO-minimal genuine reply (length envelope, no index beyond the checked length)", floor=34)
 
     UDSRequest = reg.UDSRequest
@@ -259,6 +319,10 @@ def run(m: Model, r: Report, tier: str) -> None:
         refusals, n_eval = abstract_match(ca, mt, ra, pa)
         r.check(not refusals, "R11", construct, "; ".join(sorted(set(refusals)))[:700] +
                 ": the genuine reply (same echoed bytes) is refused", loc=mt.funcs[0].loc, fact_ok=f"{n_eval} abstract outcomes")
+        # R12
+        problems12, n12 = foreign_match(ca, mt, ra, pa)
+        r.check(not problems12, "R12", construct, "; ".join(sorted(set(problems12)))[:700] + ": a stale reply with a different identifier is accepted",
+                loc=mt.funcs[0].loc, fact_ok=f"{n12} abstract outcomes, echo atoms {sorted({ast.unparse(a) for a, _, _ in mt.atoms})}")
         # R10
         key = (p.service_id, p.sub_function_id)
         if key not in iso14229.RESP:
@@ -277,6 +341,43 @@ def run(m: Model, r: Report, tier: str) -> None:
                     problems.append(f"pdu[{g[1]}] is read ({g[2]}) although lengths from {pth.len_lo} are accepted: "
                                     f"an ISO-minimal reply of {iso_min} bytes raises IndexError and is reported as malformed")
         r.check(not problems, "R10", resp.qualname, "; ".join(sorted(set(problems))), loc=resp.loc)
+
+    # R13: shape of every matches() predicate (all response classes, registered or not)
+    n13 = 0
+    for cls in m.subclasses(reg.UDSResponse, strict=True):
+        fn = cls.methods.get("matches")
+        if fn is None or fn.is_abstract or cls.module.name != SERVICE:
+            continue
+        n13 += 1
+        bad = []
+        par = {}
+        for p_ in ast.walk(fn.node):
+            for c in ast.iter_child_nodes(p_):
+                par[id(c)] = p_
+        for n in walk_no_nested(fn.node):
+            if isinstance(n, ast.BoolOp) and isinstance(n.op, ast.Or):
+                if not all(isinstance(v, ast.Call) and ast.unparse(v.func) == "isinstance" for v in n.values):
+                    bad.append(f"disjunction `{ast.unparse(n)[:90]}`: one satisfied operand accepts the reply although another comparison failed")
+            if isinstance(n, ast.Compare) and len(n.ops) == 1 and {_root(n.left), _root(n.comparators[0])} == {"request", "self"}:
+                # where does the comparison end up?
+                cur, neg = par.get(id(n)), False
+                while isinstance(cur, (ast.BoolOp, ast.UnaryOp)):
+                    if isinstance(cur, ast.UnaryOp) and isinstance(cur.op, ast.Not):
+                        neg = not neg
+                    cur = par.get(id(cur))
+                if isinstance(cur, ast.Return):
+                    want_eq = not neg
+                elif isinstance(cur, ast.If) and len(cur.body) == 1 and isinstance(cur.body[0], ast.Return) and ast.unparse(cur.body[0].value) == "False":
+                    want_eq = neg
+                else:
+                    continue
+                is_eq = isinstance(n.ops[0], ast.Eq)
+                is_ne = isinstance(n.ops[0], ast.NotEq)
+                if (want_eq and not is_eq) or (not want_eq and not is_ne):
+                    bad.append(f"`{ast.unparse(n)[:90]}` has the wrong polarity for its position (accepting positions need ==, refusing guards need !=)")
+        r.check(not bad, "R13", fn.qualname, "; ".join(bad)[:600], loc=fn.loc)
+    if n13 < 20:
+        raise AnalysisError(f"only {n13} matches() implementations found")
 
     # R1 for the pairs only named by response_type= (convenience classes the client constructs directly)
     have = {(p.request.qualname, p.response.qualname) for p in pairs}
@@ -342,8 +443,27 @@ def run(m: Model, r: Report, tier: str) -> None:
                                 f"pdu[1] is compared under guards {guards}: a 2-byte negative response naming another service is not "
                                 "recognised as foreign, or a 1-byte one raises IndexError", loc=fn.loc)
 
+    rn = m.require_function(f"{SERVICE}.RawNegativeResponse.matches")
+    rets = [n.value for n in walk_no_nested(rn.node) if isinstance(n, ast.Return)]
+    ok_rn = len(rets) == 1 and isinstance(rets[0], ast.BoolOp) and isinstance(rets[0].op, ast.And) and len(rets[0].values) == 2 and \
+        all(isinstance(v, ast.Compare) and len(v.ops) == 1 for v in rets[0].values) and \
+        isinstance(rets[0].values[0].ops[0], (ast.Gt, ast.GtE)) and isinstance(rets[0].values[1].ops[0], ast.Eq)
+    r.check(ok_rn, "R4", f"{rn.qualname}#predicate", f"predicate is `{ast.unparse(rets[0]) if rets else None}`; expected `length test and pdu[1] == request.service_id`", loc=rn.loc)
+    nm = m.require_function(f"{SERVICE}.NegativeResponse.matches")
+    rets = [n.value for n in walk_no_nested(nm.node) if isinstance(n, ast.Return)]
+    r.check(len(rets) == 1 and isinstance(rets[0], ast.Compare) and isinstance(rets[0].ops[0], ast.Eq), "R4", f"{nm.qualname}#predicate",
+            f"predicate is `{ast.unparse(rets[0]) if rets else None}`; expected an equality", loc=nm.loc)
+
     # ---------------------------------------------------------------- R5
     f = m.require_function(f"{SERVICE}.RawPositiveResponse.matches")
+    first = [s_ for s_ in f.node.body if not (isinstance(s_, ast.Expr) and isinstance(s_.value, ast.Constant))][0]
+    ok_first = isinstance(first, ast.If) and isinstance(first.test, ast.Compare) and isinstance(first.test.ops[0], ast.NotEq) and \
+        {ast.unparse(first.test.left), ast.unparse(first.test.comparators[0])} == {"self.service_id", "request.service_id"} and \
+        isinstance(first.body[0], ast.Return) and ast.unparse(first.body[0].value) == "False"
+    r.check(ok_first, "R5", f"{f.qualname}#service-id-first", "a raw positive response of another service must be refused first", loc=f.loc)
+    echo_rets = [n.value for n in ast.walk(f.node) if isinstance(n, ast.Return) and isinstance(n.value, ast.Compare) and "echo_length" in ast.unparse(n.value)]
+    r.check(len(echo_rets) == 1 and isinstance(echo_rets[0].ops[0], ast.Eq), "R5", f"{f.qualname}#echo-equality",
+            "the echoed bytes must be compared for equality", loc=f.loc)
     slices = [n for n in walk_no_nested(f.node) if isinstance(n, ast.Subscript) and isinstance(n.slice, ast.Slice)
               and ast.unparse(n.value) in ("request.pdu", "self.pdu")]
     if len(slices) < 2:
